@@ -187,3 +187,7 @@ func opSlash(v int, f string) world.Op { return world.Op{K: world.KSlash, V: v, 
 func opReward(denom, amt string) world.Op { return world.Op{K: world.KReward, Denom: denom, Amt: amt} }
 
 func sortStrings(s []string) { sort.Strings(s) }
+
+type bigRat = big.Rat
+
+func newRat() *big.Rat { return new(big.Rat) }
